@@ -787,7 +787,18 @@ class TaskGroup(abc.TaskGroup):
                 if not self._tasks:
                     # If there are no child tasks to wait on, run at least one checkpoint
                     # anyway
-                    await AsyncIOBackend.cancel_shielded_checkpoint()
+                    try:
+                        await AsyncIOBackend.cancel_shielded_checkpoint()
+                    except CancelledError as exc:
+                        # A native cancellation got through the shield; treat it like
+                        # one arriving in the wait loop below, as tasks may have been
+                        # spawned in the meantime
+                        self.cancel_scope.cancel()
+                        if exc_val is None or (
+                            isinstance(exc_val, CancelledError)
+                            and not is_anyio_cancellation(exc)
+                        ):
+                            exc_val = exc
 
                 # Tasks may have been spawned during the checkpoint above
                 if self._tasks:
